@@ -12,6 +12,8 @@ Extension of the structural CCSDS model (`Model/Ccsds.lean`, where every date is
 * `oemDumpForm` — the OEM writers and the form of the points they are given (the XML writer reads `x … vz` directly).
 * `kepManWritten` — Keplerian maneuvers (`da/di/dOmega`, no delta-v vector of their own) handed to the OPM writers.
 
+* `udKeyOut / udKeyIn` — the `USER_DEFINED_` prefix of the KVN keys (the structural model keeps user-defined fields in a sub-dict).
+
 No Mathlib import: linked into the native driver.
 -/
 namespace BeyondVerif.CcsdsExt
@@ -93,5 +95,14 @@ deriving DecidableEq, Repr
 
 def kepManWritten (continuous : Bool) : KepOut :=
   if opmWritesKeplerian then .dv else if continuous then .zeros else .attrError
+
+/-! ### the key of a user-defined field in KVN -/
+
+/-- the writers: `f"USER_DEFINED_{k} = {v}"` (`udWritePrefix`, regenerated) -/
+def udKeyOut (name : List Char) : List Char := udWritePrefix.toList ++ name
+
+/-- the readers: `if k.startswith("USER_DEFINED"): ud[k[13:]] = …` (`udReadPrefix`, `udReadSkip`, regenerated) -/
+def udKeyIn (key : List Char) : Option (List Char) :=
+  if udReadPrefix.toList.isPrefixOf key then some (key.drop udReadSkip) else none
 
 end BeyondVerif.CcsdsExt
